@@ -8,6 +8,7 @@ executed) NetQASM subroutine.
 
 from __future__ import annotations
 
+import ctypes
 from typing import Dict, List, Optional, Tuple, Union
 
 from netqasm.lang import encoding
@@ -118,6 +119,11 @@ class Subroutine:
     @property
     def cstructs(self):
         assert self.app_id is not None
+        encoding.check_int_fits(self.app_id, encoding.APP_ID, "app ID")
+        for version_number in self.netqasm_version:
+            encoding.check_int_fits(
+                version_number, ctypes.c_uint8, "NetQASM version number"
+            )
 
         metadata = encoding.Metadata(
             netqasm_version=self.netqasm_version,
